@@ -358,8 +358,39 @@ HISTORY_PAIRS = [
     ("a = []\na.append(1)\n", "a = []\nb = 2\na.append(b)\nprint(a)\n"),
     ("def f(x):\n    return x + 1\n", "\ndef f(x):\n    return x + 1\n"),
     ("for i in r:\n    t = t + i\n", "for k in r:\n    t = t + k\nprint(t)\n"),
-    ("print(1)", "print(1)\n"),
+    ("print(1)\ny = 2", "print( 1)\ny = 2\n"),
+    ("x = [1]\nprint(x)\n", "x = [1]\nprint(x)\n# x = [2]\nx = [3]\n"),
 ]
+
+
+def history_corpus():
+    """fixed witnesses, run on every run: A / B / A with explicit code (a pattern that occurs only in B, a pattern with
+    bindings), the submission / other code / the submission again, B / A / B, the same through parse_program roots,
+    across expire_cait_cache, set_source / restore_code and an unparsable text."""
+    a, b = HISTORY_PAIRS[0]
+    loop, assign, call = "for _i_ in ___:\n    pass", "_v_ = ___", "print(__expr__)"
+
+    def q(text, pattern, op="find_matches", spell="kw"):
+        if text is None:
+            return {"op": op, "target": "sub", "pattern": pattern, "spell": "omit"}
+        return {"op": op, "target": "code", "code": text, "pattern": pattern, "spell": spell}
+    none = {"setup": "none", "main": None, "global": False}
+    out = []
+    for pat in (loop, assign, call):
+        out.append({"reports": [none], "steps": [q(a, pat), q(b, pat, spell="pos"), q(a, pat)]})
+        out.append({"reports": [none], "steps": [q(b, pat), q(a, pat), q(b, pat, "find_match")]})
+        out.append({"reports": [none], "steps": [q(a, pat, "node"), q(b, pat, "node"), q(a, pat, "node"), q(a, pat, "held")]})
+        for setup in ("submission", "source"):
+            rep = {"setup": setup, "main": a, "global": False}
+            out.append({"reports": [rep], "steps": [q(None, pat, "find_match"), q(b, pat, "find_match"), q(None, pat, "find_match"),
+                                                    q(a, pat), {"op": "expire"}, q(b, pat), q(None, pat)]})
+            out.append({"reports": [rep], "steps": [q(None, pat), {"op": "set_source", "code": b}, q(None, pat), q(a, pat),
+                                                    {"op": "restore"}, q(None, pat), q(b, pat)]})
+            out.append({"reports": [rep, dict(rep, main=b)],
+                        "steps": [dict(q(None, pat), r=0), dict(q(None, pat), r=1), dict(q(a, pat), r=1), dict(q(None, pat), r=1),
+                                  dict(q(None, pat), r=0)]})
+        out.append({"reports": [none], "steps": [q(a, pat), q("def (", pat), q(b, pat), q("def (", pat, "find_match"), q(a, pat)]})
+    return [(spec, {}) for spec in out]
 
 
 def twins(rng, code):
@@ -510,9 +541,14 @@ def history_scope(rng, tier):
     parse_program(B), set_source(B), restore_code}, followed by four closing questions (A explicitly and the
     submission, each with a pattern taken from A and one taken from B), on a report without submission, with the
     submission A, and with the submission A after Source.verify()."""
-    k, n_pairs = {"quick": (2, 1), "thorough": (3, 3)}[tier]
-    pairs = list(HISTORY_PAIRS)
-    rng.shuffle(pairs)
+    k, n_pairs = {"quick": (2, 2), "thorough": (3, 4)}[tier]
+    # always one pair of really different programs and one pair of near-twins (same tree on other lines / in another
+    # text), then whatever else
+    distinct = [p for p in HISTORY_PAIRS if not p[1].strip().startswith(p[0].strip()[:8])]
+    twin = [p for p in HISTORY_PAIRS if p not in distinct]
+    rng.shuffle(distinct)
+    rng.shuffle(twin)
+    pairs = [distinct[0], twin[0]] + distinct[1:] + twin[1:]
     out = []
     alphabet = ["qA", "qB", "qS", "bad", "expire", "astsB", "parseB", "setB", "restore"]
     for a, b in pairs[:n_pairs]:
@@ -667,7 +703,7 @@ def correspond(prop):
         # step asked about, as recorded by the harness), compared with the model and given to both searches
         hnotes = {}
         pool = list(dict.fromkeys(c["code"] for c in cases if c["origin"].split(":")[0] in ("gen", "decoy")))
-        for spec, deriveds in gen_histories(rng, tier, pool) + history_scope(rng, tier):
+        for spec, deriveds in history_corpus() + gen_histories(rng, tier, pool) + history_scope(rng, tier):
             try:
                 steps = cc.run_history(spec, hnotes)
             except (SyntaxError, RecursionError):
@@ -742,7 +778,7 @@ def correspond(prop):
                     res.samples.append({"pattern": c["pattern"], "code": c["code"][:200], "matches": n,
                                         "first": cc.show_match(r.matches[0])})
             if not r.compare_model:
-                res.count("not-modelled:use_previous")
+                res.count("not-modelled:" + getattr(r, "not_modelled", "use_previous"))
                 continue
             model = cc.parse_model_matches(answers[id(r)])
             if r.api == "find_match" and not isinstance(model, str):
@@ -922,7 +958,12 @@ def search_c10(rng, tier, broken, corr):
     info = {"evaluations": 0, "distinct_nontrivial": 0,
             "rule": "oracle = Lean checkMatch (kind/content/child-of-partner/order/placeholder bindings) evaluated by the "
                     "driver on every AstMap returned by the real find_matches / find_match / CaitNode.find_matches "
-                    "(sub-matches with the parent's bindings included); non-trivial = a real match",
+                    "(sub-matches with the parent's bindings included) - on a fresh report and as a step of a HISTORY on one "
+                    "report (the same and other programs asked before, cache hits, submission vs explicit student_code, "
+                    "unparsable texts, expire_cait_cache, set_source / restore_code, Source.verify, MAIN_REPORT, two reports "
+                    "alternating), where the program a match must embed into is a fresh ast.parse of the text THAT step "
+                    "asked about: every matched node must be a node of that tree (same dump with positions); "
+                    "non-trivial = a real match",
             "samples": [], "skips": STATE.get("skips", {})}
     failures = []
     if not driver.available:
@@ -998,7 +1039,9 @@ def search_c11(rng, tier, broken, corr):
                     "consistent _var_ renaming and sibling dropping must give >= 1 match, one of which binds every "
                     "placeholder to what it replaced - also on programs with DECOY statements (look-alike instances of "
                     "one template interleaved in every order, a subsequence of a body kept), again after CAIT was given "
-                    "an unparsable text on the same report, and for sub-patterns searched inside / with an inherited "
+                    "an unparsable text on the same report, as a step of a history on one report (other programs asked in "
+                    "between, cache hits, submission vs explicit student_code, expire_cait_cache, set_source / "
+                    "restore_code), and for sub-patterns searched inside / with an inherited "
                     "match (CaitNode.find_matches, find_matches(use_previous=match)) whose placeholders are fresh or "
                     "reuse names the inherited match bound; a generalisation (same steps) of ANY pattern that matches "
                     "must still match; non-trivial = derivation with at least one step",
@@ -1017,6 +1060,11 @@ def search_c11(rng, tier, broken, corr):
         # the derived pattern asked as one step of a history on one report
         info["evaluations"] += 1
         info["history_steps"] = info.get("history_steps", 0) + 1
+        g = getattr(r, "gen", None)
+        if g is not None:
+            key = "covered" if g == "covered" else "outside:" + g
+            info.setdefault("theorem_domain_history_steps", {})
+            info["theorem_domain_history_steps"][key] = info["theorem_domain_history_steps"].get(key, 0) + 1
         if r.api == "find_match":
             why = "raises " + r.exc if r.exc is not None else None if r.raw else "no match"
         else:
